@@ -296,6 +296,9 @@ def step (st : DSt) (toks : List String) : DSt × String :=
     | ["reg", fn] => (setCochap st1 (some fn), "ok")
     | ["set", fn] => (setCochap st1 (some fn), "ok")
     | ["del"] => (setCochap st1 none, "ok")
+    -- registered for another class (an ancestor / a subclass of the schema class): the lookup is by the exact class
+    | ["regbase", _] => (st1, "ok")
+    | ["regsub", _] => (st1, "ok")
     | _ => (st, "bad-op")
   | ["misfold", fn] =>
     let st1 := st.ensure
